@@ -274,7 +274,7 @@ func genPolygon(c *hx.Ctx, proj *b6.TileMercatorProjection, ox, oy float64) (*s2
 		}
 		big := r.Chance(1, 60)
 		if big {
-			n = 1001 + r.Intn(300)
+			n = []int{999, 1000, 1000, 1001, 1001 + r.Intn(300)}[r.Intn(5)] // around the Simplify threshold
 			radius = 1500 + float64(r.Intn(2000))
 		}
 		loops = append(loops, starLoop(r, proj, cx, cy, radius, n, nh > 0 || big))
